@@ -183,7 +183,7 @@ def isStopPoll : Ev → Bool
 modules they are attached to." -/
 def ShutdownOrder (modules : List Name) (edges : List (Name × Name)) (log : List Ev) : Prop :=
   NeverAfter isShutdown isStopPoll log ∧
-  (∀ m ∈ modules, log.count (.stopPoll m) = 1 ∧ log.count (.shutdown m) = 1) ∧
+  (∀ m ∈ modules, 1 ≤ log.count (.stopPoll m) ∧ log.count (.shutdown m) = 1) ∧
   (∀ e ∈ edges, e.1 ≠ e.2 → NeverAfter (· == .shutdown e.2) (· == .shutdown e.1) log)
 
 instance (ms : List Name) (es : List (Name × Name)) (log : List Ev) : Decidable (ShutdownOrder ms es log) := by
